@@ -1,0 +1,6 @@
+//go:build verif
+
+package types
+
+// VerifDeepCopyService exposes the generated deep copy of a service (the copy handed to ForEachService visitors).
+func VerifDeepCopyService(s *ServiceConfig) *ServiceConfig { return s.deepCopy() }
